@@ -84,6 +84,11 @@ type fakeIDP struct {
 	mutateIDToken func(b *jwt.Builder, req *authzRequest) *jwt.Builder
 	signIDToken   func(tok jwt.Token) (string, error)
 	omitIDToken   bool
+	// C03 end-to-end lattice: the id_token member of the token response, verbatim (include=false: no member), and the key sets
+	rawIDToken    func(req *authzRequest) (val any, include bool)
+	jwksGet       func() jwk.Set
+	jwksRefresh   func() jwk.Set
+	jwksRefreshes int
 }
 
 type rtInfo struct {
@@ -101,9 +106,18 @@ func newFakeIDP(clientID string) *fakeIDP {
 }
 
 func (p *fakeIDP) GetPublicJwkSet(_ context.Context) (*jwk.Set, error) {
+	if p.jwksGet != nil {
+		s := p.jwksGet()
+		return &s, nil
+	}
 	return &p.keys.JwksPair.Public, nil
 }
 func (p *fakeIDP) RefreshPublicJwkSet(_ context.Context) (*jwk.Set, error) {
+	p.jwksRefreshes++
+	if p.jwksRefresh != nil {
+		s := p.jwksRefresh()
+		return &s, nil
+	}
 	return &p.keys.JwksPair.Public, nil
 }
 
@@ -240,7 +254,11 @@ func (p *fakeIDP) token(w http.ResponseWriter, r *http.Request) {
 		p.validRT[rt] = &rtInfo{sid: req.Sid, acr: req.Acr, at: n}
 		resp := map[string]any{"access_token": fmt.Sprintf("at-%s-%d", p.salt, n), "token_type": "Bearer",
 			"refresh_token": rt, "expires_in": p.tau}
-		if !p.omitIDToken {
+		if p.rawIDToken != nil {
+			if v, inc := p.rawIDToken(req); inc {
+				resp["id_token"] = v
+			}
+		} else if !p.omitIDToken {
 			idt, err := p.mintIDToken(req)
 			if err != nil {
 				http.Error(w, err.Error(), 500)
